@@ -37,6 +37,9 @@ Definition traj_init (b : list Z) : res traj :=
   | _ => Err SB_EPARSE
   end.
 
+(** sb_trajectory_init_empty: an empty buffer, scale 1, the origin as start *)
+Definition traj_empty : traj := mktraj [] 1 false (mkvec4 0 0 0 0).
+
 (** A decoded segment: duration and the control points per axis (the start
     point first), i.e. what sb_i_trajectory_player_build_current_segment feeds
     to sb_poly_make_bezier, and its end point. *)
